@@ -14,6 +14,7 @@ mod ast;
 mod c11;
 mod c16;
 mod c18;
+mod derive;
 mod dump;
 mod front;
 mod gen;
@@ -44,6 +45,7 @@ fn dispatch(v: &Value) -> Value {
         "toposort_impl" | "sort_by_indices" | "topsort" => c11::handle(cmd, v),
         "c18" | "c18_from" | "c18_json" | "c18_cmp" => c18::handle(cmd, v),
         "ast" | "ast_type" => ast::handle(cmd, v),
+        "derive_ast" | "derive_ast_file" => derive::handle(cmd, v),
         _ => json!({ "bad": format!("unknown cmd {cmd}") }),
     }
 }
